@@ -125,7 +125,9 @@ CLAIMS = {
             "loader calls, post-load adjustments) per operand, attributed by operand name or enclosing region (AST)",
             "in abidiff, abipkgdiff, abicompat and kmidiff the two operands of a comparison are read under the same "
             "configuration (same-configuration clause of self-comparison); R-QNREFRESH: qualified names cached below a "
-            "renamed decl are refreshed by full traversal only (a binary and its ABIXML get the same names)",
+            "renamed decl are refreshed by full traversal only (a binary and its ABIXML get the same names); R-ATTRWIDTH: "
+            "the ABIXML reader parses numeric attributes with conversions at least as wide as the variables that "
+            "receive them (a binary and its own ABIXML agree on sizes of 2^31 bits and more)",
             "that identical loads give identical IR and that identical IR compares clean (reflexivity of equals / "
             "canonicalisation on cyclic graphs) is runtime",
             "§3 R-TWINLOAD; §4 C01"),
@@ -160,7 +162,10 @@ CLAIMS = {
             "harmless and harmful masks are disjoint and cover every category with the three special ones; each "
             "category a categoriser assigns lies in its mask and vice versa; is_filtered_out consults only the "
             "allowed mask; the masks are switched off exactly under !--harmless / --no-harmful; R-PEELTOTAL: no "
-            "categoriser obtains `the type without its qualifiers` by one get_underlying_type() step (qualifiers nest)",
+            "categoriser obtains `the type without its qualifiers` by one get_underlying_type() step (qualifiers nest); "
+            "R-REDUNDUP: in the world where every changed child of a node without local change is not to be reported, "
+            "the redundancy pass marks the node redundant on every path (the interfaces above a harmless change "
+            "disappear with it)",
             "which category a particular change receives (runtime)",
             "§3 R-CATPART, R-OPTWIRE; §4 C07"),
     "C10": ("table extraction (net counter -> counters -> containers fed, section loop -> skip predicate -> "
@@ -183,7 +188,8 @@ CLAIMS = {
             "every element / attribute name the writer emits is asked for by the reader and vice versa; every "
             "enum->string switch of the writer is inverted by the reader's string->enum chain (collapses listed); the "
             "element kinds that may omit size-in-bits are exactly those the reader defaults to the address size; "
-            "R-IDUNIQ: a hash-style type id is inserted into the used-hash set before it is handed out",
+            "R-IDUNIQ: a hash-style type id is inserted into the used-hash set before it is handed out; R-ATTRWIDTH: "
+            "numeric attributes are parsed with the width they are stored with (five reasoned exceptions)",
             "that attribute values are computed and re-interpreted consistently (sizes, offsets, ids) is runtime; the "
             "comparison is global over names, not per element",
             "§3 R-VOCAB, R-ENUMTAB, R-DEFSZ; §4 C02"),
@@ -210,7 +216,7 @@ CLAIMS = {
             "recognition",
             "in the ABIXML reader and the tools that call it: nullable results are checked before every dereference, "
             "constant subscripts are size-guarded, and every assertion / abort that depends on document content "
-            "without a dominating check is either absent or a recorded, replayed finding (26 today); R-VFNCLASS: "
+            "without a dominating check is either absent or a recorded, replayed finding (29 today, six of them replayed with hand-written template / class elements in batch 11); R-VFNCLASS: "
             "virtual-ness is only set on methods whose scope has static type class_decl_sptr (typed provenance through "
             "helpers); R-FILTERSYM: in the categorisation filters (abg-comp-filter.cc) a function's or variable's ELF "
             "symbol - null for a declaration without symbol - is tested before it is dereferenced; "
